@@ -631,6 +631,20 @@ pub fn check_rule_types(c: &FullCase, obs: &mut Obs) -> Result<(), String> {
             }
         }
     }
+    // the same options in the hosts format: hosts entries are network rules, so a CosmeticOnly load
+    // of a hosts file is empty and a NetworkOnly load equals the plain load
+    let hosts_lines: Vec<String> = c.reqs.iter().filter_map(|r| mk_request(r)).map(|q| format!("0.0.0.0 {}", q.hostname)).filter(|l| !l.ends_with(' ')).collect();
+    if !hosts_lines.is_empty() {
+        let h = |rt: RuleTypes| ParseOptions { format: FilterFormat::Hosts, rule_types: rt, ..Default::default() };
+        obs.inner_evals += 2;
+        if bytes_of(&hosts_lines, h(RuleTypes::CosmeticOnly), c.optimize, None) != bytes_of(&[], all, c.optimize, None) {
+            return Err(format!("a hosts file {:?} loaded with CosmeticOnly is not empty", hosts_lines));
+        }
+        if bytes_of(&hosts_lines, h(RuleTypes::NetworkOnly), c.optimize, None) != bytes_of(&hosts_lines, h(RuleTypes::All), c.optimize, None) {
+            return Err(format!("a hosts file {:?} loaded with NetworkOnly differs from the plain load", hosts_lines));
+        }
+        obs.label("hosts-rule-types");
+    }
     if !net_lines.is_empty() && !cos_lines.is_empty() {
         obs.nontrivial = true;
     }
@@ -711,7 +725,7 @@ fn decode_meta(t: &mut Tape) -> MetaCase {
 }
 
 pub fn check(ctx: &mut Ctx) {
-    ctx.rule = "mutate: for each seed rule (one per distinct shape harvested from the lists under /repo/data + 60 hand-written exotic rules) EVERY char offset x 28 inserted/replaced strings (multi-byte chars, U+2028, combining mark, NUL, TAB, '$ # | , ~ * \\ ( )' ...) + every prefix/suffix; lines: random splices of rule fragments, option keywords and arbitrary code points. Each line goes through parse_filter (2 formats x 3 rule-type options x debug x permission byte), NetworkFilter::parse, CosmeticFilter::parse, parse_hosts_style, read_list_metadata, FilterSet::add_filter[_list], and, when it parses, ids/tokens/matching, engine build (optimise on/off), network/csp/cosmetic queries and a serialize round trip: nothing may panic. independence: list + injected lines that the parser rejects individually => identical serialized engine (also with the list's own rejected lines deleted, and through add_filter_list with LF/CRLF). hosts-eq: hosts entry vs '||host^' (incl. '#' comments glued to the name, names of up to 130 labels, bogus xn-- labels). multi-call: 2-4 add_filters calls on ONE FilterSet with different formats / rule-type options / permissions over a shared pool of lines (so the same text arrives under several options) vs the same calls with each call's individually rejected lines deleted. rule-types: NetworkOnly/CosmeticOnly engines vs engines of the lines of one kind. meta: header blocks with multi-byte chars straddling byte 1024. Non-trivial (mutate/lines) = mutated line that still parses or is rejected by a rule parser rather than by kind detection.".into();
+    ctx.rule = "mutate: for each seed rule (one per distinct shape harvested from the lists under /repo/data + 60 hand-written exotic rules) EVERY char offset x 28 inserted/replaced strings (multi-byte chars, U+2028, combining mark, NUL, TAB, '$ # | , ~ * \\ ( )' ...) + every prefix/suffix; lines: random splices of rule fragments, option keywords and arbitrary code points. Each line goes through parse_filter (2 formats x 3 rule-type options x debug x permission byte), NetworkFilter::parse, CosmeticFilter::parse, parse_hosts_style, read_list_metadata, FilterSet::add_filter[_list], and, when it parses, ids/tokens/matching, engine build (optimise on/off), network/csp/cosmetic queries and a serialize round trip: nothing may panic. independence: list + injected lines that the parser rejects individually => identical serialized engine (also with the list's own rejected lines deleted, and through add_filter_list with LF/CRLF). hosts-eq: hosts entry vs '||host^' (incl. '#' comments glued to the name, names of up to 130 labels, bogus xn-- labels). multi-call: 2-4 add_filters calls on ONE FilterSet with different formats / rule-type options / permissions over a shared pool of lines (so the same text arrives under several options) vs the same calls with each call's individually rejected lines deleted. rule-types: NetworkOnly/CosmeticOnly engines vs engines of the lines of one kind (standard format), and a hosts file built from the request hosts loaded with CosmeticOnly (must be empty) / NetworkOnly (must equal the plain load). meta: header blocks with multi-byte chars straddling byte 1024. Non-trivial (mutate/lines) = mutated line that still parses or is rejected by a rule parser rather than by kind detection.".into();
     ctx.assumptions = vec!["hosts equivalence is asserted for hosts spelled in lower case (upper-case hosts only for totality)".into()];
     let all_seeds = seeds(ctx.tier.pick(400, 1500));
     let n_seeds = all_seeds.len() as u64;
